@@ -18,6 +18,9 @@ structure Node where
   role     : Role := .follower
   tally    : List Nat := []
   commit   : Nat := 0
+  base     : Nat := 0      -- entries with index ≤ base have been compacted out of the stored log
+  snapIdx  : Nat := 0      -- newest durable snapshot (0 = none)
+  snapTerm : Nat := 0
 deriving Repr
 
 inductive Msg
@@ -25,6 +28,8 @@ inductive Msg
   | voteResp (voter cand term : Nat) (granted : Bool)
   | ae (ldr term prevIdx prevTerm : Nat) (es : List Entry) (lc : Nat)
   | aeResp (flw ldr term lastCovered : Nat)
+  | is (ldr term idx iterm : Nat)          -- InstallSnapshot: the sender's log through idx, last term iterm
+  | isResp (flw ldr term idx : Nat)
 deriving DecidableEq, Repr
 
 structure Ghost where
@@ -88,7 +93,8 @@ def handleAE (nd : Node) (t prevIdx prevTerm : Nat) (es : List Entry) (lc : Nat)
   if t < nd.term then (nd, false) else
   let nd1 : Node := if nd.term < t ∨ nd.role ≠ .follower
                     then { nd with term := t, role := .follower, tally := [] } else nd
-  if prevIdx ≠ 0 ∧ (nd1.log.length < prevIdx ∨ termAt nd1.log prevIdx ≠ prevTerm) then (nd1, false)
+  if prevIdx < nd1.base then (nd1, false)
+  else if prevIdx ≠ 0 ∧ (nd1.log.length < prevIdx ∨ termAt nd1.log prevIdx ≠ prevTerm) then (nd1, false)
   else
     let pre := nd1.log.take prevIdx
     let suf := nd1.log.drop prevIdx
@@ -96,6 +102,19 @@ def handleAE (nd : Node) (t prevIdx prevTerm : Nat) (es : List Entry) (lc : Nat)
     | 0 => ({ nd1 with log := pre ++ truncSuffix suf es, commit := 0 }, false)
     | _ => ({ nd1 with log := pre ++ mergeSuffix suf es,
                        commit := max nd1.commit (min lc (prevIdx + es.length)) }, true)
+
+/-- InstallSnapshot handler (repaired F3/F11 rule).  `T` is what the snapshot stands for: the
+    sender's log.  `nd.log` is the *full* log (ghost): the stored window is `log.drop base`. -/
+def handleIS (nd : Node) (T : List Entry) (t idx iterm : Nat) : Node × Bool :=
+  if t < nd.term then (nd, false) else
+  let nd1 : Node := if nd.term < t ∨ nd.role ≠ .follower
+                    then { nd with term := t, role := .follower, tally := [] } else nd
+  if idx ≤ nd1.log.length ∧ termAt nd1.log idx = iterm then
+    -- the server already holds the snapshot's last entry: keep log and state machine
+    ({ nd1 with snapIdx := max nd1.snapIdx idx,
+                snapTerm := if nd1.snapIdx < idx then iterm else nd1.snapTerm }, true)
+  else
+    ({ nd1 with log := T.take idx, base := idx, snapIdx := idx, snapTerm := iterm }, true)
 
 inductive Label
   | timeout (i : Nat)
@@ -108,6 +127,10 @@ inductive Label
   | sendAE (i prevIdx len lc : Nat)
   | recvAE (j ldr t prevIdx prevTerm : Nat) (es : List Entry) (lc stage : Nat)
   | advanceCommit (i k : Nat) (Q : List Nat)
+  | compact (i b : Nat)
+  | takeSnap (i k : Nat)
+  | sendIS (i : Nat)
+  | recvIS (j ldr t idx iterm : Nat)
 
 def enabled (n : Nat) (s : Sys) : Label → Prop
   | .timeout i => i < n
@@ -125,6 +148,11 @@ def enabled (n : Nat) (s : Sys) : Label → Prop
       (∀ v ∈ Q, v < n ∧ (v = i ∨ ∃ k', k ≤ k' ∧ Msg.aeResp v i (s.nodes i).term k' ∈ s.net)) ∧
       1 ≤ k ∧ k ≤ (s.nodes i).log.length ∧ termAt (s.nodes i).log k = (s.nodes i).term ∧
       (s.nodes i).commit ≤ k
+  | .compact i b => i < n ∧ b ≤ (s.nodes i).snapIdx
+  | .takeSnap i k => i < n ∧ 1 ≤ k ∧ k ≤ (s.nodes i).commit ∧ (s.nodes i).snapIdx ≤ k
+  | .sendIS i => i < n ∧ (s.nodes i).role = .leader ∧ 1 ≤ (s.nodes i).snapIdx ∧
+      (s.nodes i).snapIdx ≤ (s.nodes i).log.length
+  | .recvIS j ldr t idx iterm => j < n ∧ Msg.is ldr t idx iterm ∈ s.net
 
 def apply (n : Nat) (s : Sys) : Label → Sys
   | .timeout i =>
@@ -174,6 +202,17 @@ def apply (n : Nat) (s : Sys) : Label → Sys
         net := if r.2 then Msg.aeResp j ldr t (prevIdx + es.length) :: s.net else s.net,
         ghost := if r.2 then { s.ghost with acks := (j, t, prevIdx + es.length) :: s.ghost.acks } else s.ghost }
   | .advanceCommit i k _ => setNode s i { (s.nodes i) with commit := k }
+  | .compact i b => setNode s i { (s.nodes i) with base := max (s.nodes i).base b }
+  | .takeSnap i k => setNode s i { (s.nodes i) with snapIdx := k, snapTerm := termAt (s.nodes i).log k }
+  | .sendIS i =>
+      let nd := s.nodes i
+      -- the term is read off the (ghost) full log; equal to the stored snapTerm by the coherence invariant
+      { s with net := Msg.is i nd.term nd.snapIdx (termAt nd.log nd.snapIdx) :: s.net }
+  | .recvIS j ldr t idx iterm =>
+      let r := handleIS (s.nodes j) (s.ghost.tl t) t idx iterm
+      { (setNode s j r.1) with
+        net := if r.2 then Msg.isResp j ldr t idx :: s.net else s.net,
+        ghost := if r.2 then { s.ghost with acks := (j, t, idx) :: s.ghost.acks } else s.ghost }
 
 def Step (n : Nat) (s s' : Sys) : Prop := ∃ l, enabled n s l ∧ s' = apply n s l
 
